@@ -123,6 +123,16 @@ def apply_body_rules(rw, src, f, body_open, body_close, loops, cfg):
             raise Undecided(f"anchor lost: rewrite pattern {pat!r} not found in {f.key}")
         for k in hits:
             rw.replace(k, k + len(pt), rep, rule, swallow=True)
+    # R34-bind-tail: the function's tail expression `E` (it starts at the unique match of the given pattern and runs to the end of the
+    #      body) becomes `let vx_res = E; <proof hint> vx_res`, so that a proof hint can talk about the value being returned
+    bt = f.opts.get("bind_tail")
+    if bt:
+        pt = [t.text for t in lex(bt)]
+        hits = _find_pattern(src, pt, body_open + 1, body_close)
+        if len(hits) != 1:
+            raise Undecided(f"anchor lost: tail expression {bt!r} not found exactly once in {f.key}")
+        rw.insert(hits[0], "let vx_res = ", "R34-bind-tail")
+        rw.insert_after(body_close - 1, ";\n" + f.opts.get("tail_hint", "") + "\nvx_res\n", "R34-bind-tail")
     # R5-tail-loop: a `loop { .. break VALUE .. }` that is the function's tail expression: `break VALUE` -> `return VALUE`
     if f.opts.get("tail_loop_return"):
         tail = [lp for lp in loops if lp["kind"] == "loop" and lp["body_close"] == body_close - 1]
